@@ -17,6 +17,11 @@ def draw_timing(rng, cfg, K, mode, radi, src, recs):
         if mode == "long":
             span = (K + 2.2) * diag / c
             nbin = int(rng.integers(50, 90))
+        elif mode == "coarse":
+            # window holds every arrival but the bins are wider than neighbouring patch
+            # distances: many legs have a zero-bin delay
+            span = (K + 2.2) * diag / c
+            nbin = int(rng.integers(6, 16))
         elif mode == "short":
             span = rng.uniform(0.7, 1.6) * diag / c
             nbin = int(rng.integers(12, 40))
